@@ -1566,7 +1566,7 @@ def scen_C13(ctx):
     ctx.rule = ('L_open: all 25 ordered pairs (created as / opened as) of the five key types; for every pair of different types and each of the three '
                 'files, that file alone replaced by the other type\'s; every single-byte mutation of the 16 signature bytes of each file (quick: 24 '
                 'byte values per position incl. +-1, bit flips, 0, 255; thorough: all 255): the open must be rejected before any result and leave all '
-                'files byte-identical; the only accepted foreign opens are the known finding (u64 <-> vu64); the matrix runs on maps holding a record and on never-written (header-only) maps; distinct = distinct (scenario, case) tuples')
+                'files byte-identical; the only accepted foreign opens are the known finding (u64 <-> vu64); the matrix runs on maps holding a record and on never-written (header-only) maps; SHORT files (7..200 bytes: another type\'s file, another kind of file, or the own file with a present signature byte mutated, each cut to L bytes) must be refused without a write; distinct = distinct (scenario, case) tuples')
     kf = [k for k in C.known_findings() if k.get('property') == 'C13']
     known_pairs = {('u64', 'vu64'), ('vu64', 'u64')} if kf else set()
     lines = ['db d0 db']
@@ -1658,9 +1658,59 @@ def scen_C13(ctx):
         if len(ctx.samples) < 6:
             ctx.samples.append({'scenario': 'mutations', 'ops': lines[len(base):len(base) + 8]})
         shutil.rmtree(os.path.join(ctx.root, 'mx' + tag), ignore_errors=True)
+    # (d) SHORT files with a foreign signature: one file of a map replaced by the first L bytes of another key type's file, of
+    # another kind of file (.key as .htx ...), or of its own with one of the signature bytes still present mutated.  Direct oracle
+    # only (the record-level model does not model files shorter than their header): a signature byte that IS in the file and differs
+    # from the expected one must make the open fail before any result, and no file may change.  A short file whose present
+    # signature bytes are all right is not a foreign file and is not judged here.
+    def short_files():
+        base = ['db d0 db'] + sum([['map m%s d0 %s t_%s B8' % (a, a, a), 'put m%s %s 0102' % (a, G.hx(G.vu64(5)))] for a in G.KTS], []) + ['closeall', 'snap db']
+        lens = [7, 8, 9, 12, 16, 17, 20, 24, 31, 32, 64, 100, 127, 128, 129, 191, 192, 200]
+        lens = lens[::2] + [127] if ctx.quick else lens
+        other = {'string': 'i64', 'bytes': 'string', 'i64': 'bytes', 'u64': 'string', 'vu64': 'bytes'}
+        kind2 = {'key': 'htx', 'val': 'key', 'htx': 'val'}
+        lines = list(base)
+        marks = []
+        for a in G.KTS:
+            for ext in ('key', 'val', 'htx'):
+                for L in lens:
+                    for kind in ('type', 'kind', 'mut'):
+                        pre = ['cpfile db t_%s.%s keep.%s' % (a, ext, ext)]
+                        if kind == 'type':
+                            if L < 9: continue          # the type signature starts at byte 8
+                            pre += ['cpfile db t_%s.%s t_%s.%s' % (other[a], ext, a, ext), 'truncfile db t_%s.%s %d' % (a, ext, L)]
+                        elif kind == 'kind':
+                            pre += ['cpfile db t_%s.%s t_%s.%s' % (a, kind2[ext], a, ext), 'truncfile db t_%s.%s %d' % (a, ext, L)]
+                        else:
+                            pos = rng.randrange(min(L, 16))
+                            if pos == 7: pos = 6        # byte 7 of every signature1 is NUL already
+                            orig = (s1x[ext] + sigsx[a])[pos]
+                            v = rng.choice([orig ^ 1, orig ^ 0x20, (orig + 1) % 256, 255 - orig if 255 - orig != orig else 1])
+                            pre += ['truncfile db t_%s.%s %d' % (a, ext, L), 'mutate db t_%s.%s %d %d' % (a, ext, pos, v)]
+                        lines += pre + ['snap db', 'db d0 db', 'map mx d0 %s t_%s default' % (a, a)]
+                        marks.append((len(lines) - 1, (kind, a, ext, L), len(pre)))
+                        lines += ['closeall', 'snap db', 'cpfile db keep.%s t_%s.%s' % (ext, a, ext)]
+        il, ist = impl_only(lines, os.path.join(ctx.root, 'mxshort'), op_timeout=30)
+        ctx.evaluations += len(marks)
+        ctx.scen_counts['short_foreign_files'] = len(marks)
+        for j, cs, npre in marks:
+            ctx.distinct.add(str(('short', cs)))
+            if j >= len(il):
+                ctx.violation('short_crash', 'the short-file matrix ended with %s' % ist, lines[:j + 1]); break
+            before, after = il[j - 2], il[j + 2] if j + 2 < len(il) else None
+            rep = base[:-1] + lines[j - 2 - npre:j + 3]
+            if il[j] == 'ok' or not (il[j] == 'panic' or il[j].startswith('err')):
+                ctx.violation('short_accepted_%s' % '_'.join(str(x) for x in cs), 'open accepted a short file with a foreign signature (case %s: %s of key type %s cut to %d bytes): `%s`'
+                              % (cs[0], cs[2], cs[1], cs[3], il[j]), rep); break
+            if after is not None and before != after:
+                ctx.violation('short_rejected_open_wrote_%s' % '_'.join(str(x) for x in cs), 'a rejected open changed the files: case %s: before `%s` after `%s`' % (cs, before[:200], after[:200]), rep); break
+        shutil.rmtree(os.path.join(ctx.root, 'mxshort'), ignore_errors=True)
+    sigsx = {'string': b'string\0\0', 'bytes': b'bytes\0\0\0', 'i64': b'i64_le\0\0', 'u64': b'u64_le\0\0', 'vu64': b'u64_le\0\0'}
+    s1x = {'key': b'abysdbK\0', 'val': b'abysdbV\0', 'htx': b'abysdbH\0'}
     # maps holding a record, and maps that were created and closed without ever being written (header-only files)
     matrix(True)
     matrix(False)
+    short_files()
     # rejected opens at byte level: wrong type / mutated signature byte; the REAL trace of a rejected open must show no write,
     # no set_len and no seek beyond the end, and must equal the trace of Io.open_existing event by event
     io_traces(ctx, 0, 0, 0, 0, ctx.scale(30, 240))
